@@ -3,9 +3,10 @@
    Proofs/DomSpec.v, Proofs/DomModel.v.
    Graphs are adjacency lists (node i -> list of successors, with multiplicity), nodes are
    natural numbers, the Go value -1 is [None].  All statements are for EVERY graph and root. *)
-From Coq Require Import List Arith.
-From MM Require Import Base.GDGraph Spec.Dom Model.Dom Proofs.DomSpec Proofs.DomModel Proofs.DomFrontier Proofs.DomDFS Proofs.DomCHK.
+From Coq Require Import List Arith ZArith Permutation.
+From MM Require Import Base.GDGraph Spec.Dom Model.Dom Proofs.DomSpec Proofs.DomModel Proofs.DomFrontier Proofs.DomDFS Proofs.DomCHK Proofs.CheckC19 Base.Num Check.C19.
 Import ListNotations.
+Local Open Scope nat_scope.
 
 (* ---- the specification oracle (what the Go results are compared with) ---- *)
 
@@ -163,3 +164,85 @@ Example C19_example :
   dom_children (idom_spec_list ex_g 0) = Ok [[1; 2; 3; 4]; []; []; []; []; []] /\
   dominatesb ex_g 0 0 4 = true /\ dominatesb ex_g 0 1 4 = false /\ dominatesb ex_g 0 5 4 = false.
 Proof. vm_compute. repeat split; reflexivity. Qed.
+
+(* ---- what a passing verdict of the correspondence comparator means (Proofs/CheckC19.v) ---- *)
+(* If check_C19 accepts a case line (code 0 = ok; 1 = borderline does not occur) then the line
+   parses COMPLETELY (nothing is left over) into a well-formed graph g and a NON-EMPTY list of
+   root observations, every root is a node, and for every root r ([root_sound], spelled out):
+   IDom returned and its result is, entry for entry, idom_spec g r (-1 = None);
+   Dom returned, NumNodes = V, row k of the tree has IDom(k) = idom_spec g r k, In(k) = [IDom(k)]
+   and Out(k) a PERMUTATION of the nodes whose idom_spec is k; DomFrontier returned V rows and
+   the row of every REACHABLE x is, as a set, df_spec g r x - membership of the root itself not
+   being judged when the root has exactly one incoming edge (parallel edges counted); the
+   arguments were not modified.  Only the specification oracle occurs (reach / idom_spec /
+   children_of / df_spec, characterised by C19_reach_is_path, C19_dominates_iff_paths,
+   C19_idom_spec_unique, C19_idom_spec_root_unreachable, C19_children_of_spec, C19_df_spec_def). *)
+Theorem C19_check_ok_sound : forall line c tag pos diag,
+  check_C19 line = verdict c tag pos diag -> (c = 0 \/ c = 1)%Z ->
+  exists g os, p_line line = Some ((g, os), []) /\
+    wf g /\ os <> [] /\
+    Forall (fun o =>
+      let n := length g in let r := ro_root o in
+      r < n /\
+      ro_stI o = 0%Z /\ ro_idom o = map oz (idom_spec_list g r) /\
+      ro_stD o = 0%Z /\ ro_nn o = Z.of_nat n /\ length (ro_tree o) = n /\
+      (forall k, k < n -> exists outs,
+          nth_error (ro_tree o) k = Some (oz (idom_spec g r k), ([oz (idom_spec g r k)], outs)) /\
+          Permutation outs (zs (children_of (idom_spec_list g r) k))) /\
+      ro_stF o = 0%Z /\ length (ro_df o) = n /\
+      (forall x, In x (reach g r) -> exists row, nth_error (ro_df o) x = Some row /\
+          forall y, ~ (y = Z.of_nat r /\ indeg g r = 1) ->
+            (In y row <-> exists y', y = Z.of_nat y' /\ In y' (df_spec g r x))) /\
+      ro_mut o = 0%Z) os.
+Proof. exact check_ok_sound. Qed.
+Print Assumptions C19_check_ok_sound.
+
+(* read through the definitions of dominance: an accepted IDom entry of a reachable non-root node
+   IS the closest strict dominator (a strict dominator that every strict dominator dominates),
+   and the entry of the root / of an unreachable node is -1 *)
+Theorem C19_accepted_idom_is_closest_sdom : forall g o, wf g -> ro_root o < length g -> root_sound g o ->
+  forall b, b < length g ->
+    exists z, nth_error (ro_idom o) b = Some z /\
+      ((b = ro_root o \/ ~ In b (reach g (ro_root o))) -> z = (-1)%Z) /\
+      (In b (reach g (ro_root o)) -> b <> ro_root o ->
+         exists d, z = Z.of_nat d /\ sdominates g (ro_root o) d b /\
+                   forall a, sdominates g (ro_root o) a b -> dominates g (ro_root o) a d).
+Proof. exact accepted_idom_is_closest_sdom. Qed.
+Print Assumptions C19_accepted_idom_is_closest_sdom.
+
+(* children_of is the inversion of an idom list; together with the Permutation above: Out(k)
+   lists exactly the nodes whose immediate dominator is k, once each *)
+Theorem C19_children_of_spec : forall idom i j,
+  In j (children_of idom i) <-> nth_error idom j = Some (Some i).
+Proof. exact children_of_spec. Qed.
+Print Assumptions C19_children_of_spec.
+
+(* an accepted line ALSO equals the algorithm model of dom.go value for value (order of the
+   children and of the frontier members included): the comparison is stricter than the property *)
+Theorem C19_check_ok_model : forall line c tag pos diag g os,
+  check_C19 line = verdict c tag pos diag -> (c = 0 \/ c = 1)%Z -> p_line line = Some ((g, os), []) ->
+  Forall (fun o => exists im ch d,
+    idom_chk (fuel_for g) g (ro_root o) = Ok im /\ ro_idom o = map oz im /\
+    dom_children (idom_spec_list g (ro_root o)) = Ok ch /\ map (fun t => snd (snd t)) (ro_tree o) = map zs ch /\
+    dom_frontier (fuel_for g) g (ro_root o) (idom_spec_list g (ro_root o)) = Ok d /\
+    map (fun x => nth x (ro_df o) []) (reach g (ro_root o)) = map (fun x => zs (nth x d [])) (reach g (ro_root o))) os.
+Proof. exact check_ok_model. Qed.
+Print Assumptions C19_check_ok_model.
+
+(* non-vacuity: a real line of the harness (graph [[1;2];[3];[3];[0;3];[3;1]], roots 0 and 3; node 4
+   unreachable and feeding the joins 3 and 1; root 0 has exactly one incoming edge) is accepted;
+   a line without roots, and the same line with one frontier member dropped, are not *)
+Definition ex_line : list Z :=
+  [19; 5; 2; 1; 2; 1; 3; 1; 3; 2; 0; 3; 2; 3; 1; 2;
+   0; 0; 0; 5; -1; 0; 0; 0; -1; 0; 5; 5; -1; 1; -1; 3; 1; 2; 3; 0; 1; 0; 0; 0; 1; 0; 0; 0; 1; 0; 0; -1; 1; -1; 0;
+   0; 5; 0; 1; 3; 1; 3; 1; 3; 0; 0;
+   3; 0; 0; 5; 3; 0; 0; -1; -1; 0; 5; 5; 3; 1; 3; 2; 1; 2; 0; 1; 0; 0; 0; 1; 0; 0; -1; 1; -1; 1; 0; -1; 1; -1; 0;
+   0; 5; 1; 3; 1; 3; 1; 3; 1; 3; 0; 0]%Z.
+Example C19_check_example :
+  (exists tag, check_C19 ex_line = verdict 0 tag (-1) []) /\
+  check_C19 [19; 1; 0; 0]%Z = verdict 2 0 (-1) [13%Z] /\
+  (exists tag pos diag, check_C19 [19; 3; 1; 1; 0; 1; 1; 1; 0; 0; 0; 3; -1; 0; -1; 0; 3; 3; -1; 1; -1; 1; 1; 0; 1; 0; 0; -1; 1; -1; 0; 0; 3; 0; 0; 0; 0]%Z
+                         = verdict 0 tag pos diag) /\
+  (exists tag diag, check_C19 [19; 3; 1; 1; 0; 1; 1; 1; 0; 0; 0; 3; -1; 0; -1; 0; 3; 3; -1; 1; -1; 1; 1; 0; 1; 0; 0; -1; 1; -1; 0; 0; 3; 1; 1; 0; 0; 0]%Z
+                     = verdict 2 tag 9 diag).
+Proof. vm_compute. repeat split; eexists; try eexists; try eexists; reflexivity. Qed.
